@@ -14,10 +14,11 @@ CFG = {
                   "in corpus/C06/agent.ops): it is proved for all histories that do not signal a peer-reflexive candidate "
                   "with a non-empty related address (C06_no_dup_pair_partial). Candidates carry the literal form of their address "
                   "(canonical / IPv4-mapped or expanded): an inbound message from the canonical address of a listed remote candidate "
-                  "never adds a remote candidate whatever literal it was signalled with (C06_known_source_no_new_remote); "
-                  "deduplication and peer-reflexive supersession hold only up to the literal, because transportAddressEqual compares "
-                  "Address() strings: full statements refuted on witnesses replayed on the real agent, strongest true forms proved "
-                  "(C06_remotes_dedup_canonical_partial, C06_prflx_superseded_partial; notes/C06-forms.md).",
+                  "never adds a remote candidate whatever literal it was signalled with (C06_known_source_no_new_remote), remote "
+                  "candidates are pairwise different as canonical candidates (C06_remotes_dedup_canonical) and a new signalled "
+                  "candidate supersedes every peer-reflexive candidate at its canonical transport address (C06_prflx_superseded) — "
+                  "full strength since the fix of FORMS-1/2 (/repo 2a786b2, transportAddressEqual compares canonical addresses; "
+                  "notes/C06-forms.md).",
     "level_note": "The theorems are about the model; the model is tied to agent.go/selection.go by the differential "
                   "correspondence of component `agent` (real agents under testing/synctest vs. the compiled model, every "
                   "operation's full canonical state compared), so a change of the code that breaks a clause shows up as a "
@@ -40,7 +41,6 @@ CFG = {
                      "the harness digest prints checklist, candidate lists, selection, pending count after every operation"],
     "assumptions": ["theorems quantify over all event lists from a fresh agent (Init: empty checklist, candidate lists, caches; "
                     "nothing selected or nominated; configuration, credentials, role and counters arbitrary)",
-                    "C06_no_dup_pair_partial: no addRemote event carries a peer-reflexive candidate with a non-empty related address (evOK)",
-                    "C06_remotes_dedup_canonical_partial: every addRemote event carries a canonical address literal (evCanon)"],
+                    "C06_no_dup_pair_partial: no addRemote event carries a peer-reflexive candidate with a non-empty related address (evOK)"],
     "technique": "invariant + induction over event lists; handlers as chains of atomic transitions",
 }
